@@ -68,5 +68,6 @@ Tiling == Complete => TilingInv
 TreeFacts == Complete => LET L == ConvertOut.nodes IN
                 /\ L # <<>> /\ L[1].d = 0
                 /\ \A i \in 2..Len(L) : L[i].d <= L[i - 1].d + 1                 \* pre-order listing of a forest
-GDump == Complete => PrintT(<<"VEC", ToJson([s |-> s, out |-> ConvertOut, printed |-> Printed])>>)
+GDump == Complete => PrintT(<<"VEC", ToJson([s |-> s, out |-> ConvertOut, printed |-> Printed,
+                                              indent |-> [pug |-> IndentPrinted("pug"), haml |-> IndentPrinted("haml"), slim |-> IndentPrinted("slim")]])>>)
 =============================================================================
